@@ -101,7 +101,47 @@ pub fn gen_raw(cur: &mut Cursor) -> (RefPos, &'static str) {
         3..=5 => {
             // valid plus one injected fault
             let (mut p, _) = gen_position(cur);
-            match cur.below(9) {
+            match cur.below(11) {
+                9 => {
+                    // many kings of one colour: 2..=17, with a bias to 15, 16 and 17
+                    let c = if cur.bool() { Col::B } else { Col::W };
+                    let target = cur.pick(&[2usize, 3, 8, 15, 16, 16, 17]);
+                    if cur.bool() {
+                        // a side made of kings only
+                        for s in 0..64usize {
+                            if matches!(p.b[s], Some((cc, pc)) if cc == c && pc != Pc::K) {
+                                p.b[s] = None;
+                            }
+                        }
+                    }
+                    let mut have = p.b.iter().filter(|m| **m == Some((c, Pc::K))).count();
+                    while have < target {
+                        match any_free(cur, &p) {
+                            Some(s) => {
+                                p.b[s as usize] = Some((c, Pc::K));
+                                have += 1;
+                            }
+                            None => break,
+                        }
+                    }
+                }
+                10 => {
+                    // a side without any man, or the board full of one colour's men
+                    let c = if cur.bool() { Col::B } else { Col::W };
+                    if cur.bool() {
+                        for s in 0..64usize {
+                            if matches!(p.b[s], Some((cc, _)) if cc == c) {
+                                p.b[s] = None;
+                            }
+                        }
+                    } else {
+                        for s in 0..64usize {
+                            if p.b[s].is_none() {
+                                p.b[s] = Some((c, cur.pick(&[Pc::N, Pc::B, Pc::R, Pc::Q])));
+                            }
+                        }
+                    }
+                }
                 0 => {
                     // remove a king
                     let c = if cur.bool() { Col::B } else { Col::W };
